@@ -446,7 +446,36 @@ func (b *Builder) Branch() {
 			known = st.Err == nil
 		}
 	}
+	// the Spectre-like gadget: a register set before the branch, rewritten in
+	// the shadow, consumed (as a load base or an ALU operand) right after the
+	// join — on the wrong path the consumer runs with the shadow's value
+	gadget := 0
+	var ga, gb, gc int32
+	if known && b.P.Hostile && b.depth == 0 && rapid.IntRange(0, 3).Draw(b.t, "gadget") == 0 {
+		for _, r := range b.pool {
+			if r != in.Rs1 && r != in.Rs2 && r != 0 && !b.noDest[r] {
+				gadget = r
+				break
+			}
+		}
+		if gadget != 0 {
+			words := int32(len(b.Init.Mem)) / 4
+			lim := words/2 - 1
+			if lim > 60 {
+				lim = 60
+			}
+			ga = 4 * rapid.Int32Range(0, lim).Draw(b.t, "ga")
+			gb = 4 * rapid.Int32Range(0, lim).Draw(b.t, "gb")
+			gc = 4 * rapid.Int32Range(0, lim).Draw(b.t, "gc")
+			b.emit(ref.Ins{Op: "li", Rd: gadget, Imm: ga})
+			st = b.State()
+			known = st.Err == nil
+		}
+	}
 	wantTaken := rapid.IntRange(0, 99).Draw(b.t, "taken") < b.P.TakenPct
+	if gadget != 0 {
+		wantTaken = true
+	}
 	taken := false
 	if known {
 		taken = ref.Cond(in.Op, st.Reg[in.Rs1], st.Reg[in.Rs2])
@@ -464,6 +493,21 @@ func (b *Builder) Branch() {
 	in.Label = l
 	b.emit(in)
 	k := rapid.IntRange(1, 4).Draw(b.t, "shadowlen")
+	if known && taken && b.P.Hostile && gadget == 0 && rapid.IntRange(0, 11).Draw(b.t, "longshadow") == 0 {
+		// a long shadow rewriting one register more often than the rename table
+		// has slots
+		r := b.dest("rd")
+		for i := rapid.IntRange(11, 14).Draw(b.t, "longlen"); i > 0; i-- {
+			b.emit(ref.Ins{Op: "li", Rd: r, Imm: int32(i)})
+		}
+		b.Meta["longshadow"]++
+		k = 0
+	}
+	if known && taken && gadget != 0 {
+		b.emit(ref.Ins{Op: "addi", Rd: gadget, Rs1: 0, Imm: gb})
+		b.Meta["gadget"]++
+		k = rapid.IntRange(0, 1).Draw(b.t, "gadgetextra")
+	}
 	for i := 0; i < k; i++ {
 		if known && taken && b.P.Hostile {
 			b.Hostile(l)
@@ -476,6 +520,13 @@ func (b *Builder) Branch() {
 		}
 	}
 	b.place(l)
+	if known && taken && gadget != 0 {
+		if rapid.Bool().Draw(b.t, "gadgetload") {
+			b.emit(ref.Ins{Op: "lw", Rd: b.dest("rd"), Rs1: gadget, Imm: gc})
+		} else {
+			b.emit(ref.Ins{Op: "add", Rd: b.dest("rd"), Rs1: gadget, Rs2: gadget})
+		}
+	}
 }
 
 // Jump emits j / jal / jalr forward over a shadow.
@@ -884,6 +935,16 @@ func (b *Builder) Pair() {
 	if hit1 {
 		// touch the line first so that the first access hits
 		b.emit(ref.Ins{Op: "lb", Rd: 0, Rs1: 0, Imm: word &^ 63})
+		if rapid.Bool().Draw(b.t, "warmdrain") {
+			// ... and let the pipeline drain (a taken branch) so that the pair
+			// meets a quiet machine and a resident line
+			// (a jump met for the first time flushes like a mispredicted branch but,
+			// decode being stalled behind it, has no wrong path)
+			l := b.label()
+			b.emit(ref.Ins{Op: "j", Label: l})
+			b.place(l)
+			b.Meta["pair_warm_drained"]++
+		}
 	}
 	// independent address registers holding the two addresses
 	st := b.State()
